@@ -169,6 +169,9 @@ def fmt_short(v):
         return v
     if v is None or isinstance(v, (bool, int, float)):
         return str(v)
+    if isinstance(v, (list, dict, tuple)):
+        # names that are JSON containers: skops formats them with str() when it reports them, so do we
+        return str(v)[:60]
     return "?"
 
 
@@ -252,6 +255,15 @@ def entry_variants(sio, case, data, T, rec):
             out["type_objects"] = outcome_of(lambda: sio.loads(data, trusted=ty))
             sup = list(T) + ["zz.unrelated", "os.getcwd"]
             out["superset"] = outcome_of(lambda: sio.loads(data, trusted=sup))
+            if T:
+                # the caller owns its trusted list: it may edit the SAME list object in place between two loads (here:
+                # every name revoked, length unchanged); the second load must behave as with a fresh list of those names
+                L = list(T)
+                sio.loads(data, trusted=L) if out["loads"].startswith("returned") else None
+                for i in range(len(L)):
+                    L[i] = f"zz.revoked{i}"
+                out["inplace_edit_same_object"] = outcome_of(lambda: sio.loads(data, trusted=L))
+                out["inplace_edit_fresh_object"] = outcome_of(lambda: sio.loads(data, trusted=list(L)))
         out["true_loads"] = outcome_of(lambda: sio.loads(data, trusted=True))
         out["true_load"] = outcome_of(lambda: sio.load(f, trusted=True))
         try:
